@@ -65,6 +65,8 @@ struct Oracle {
 	/// leak counters for the matcher: (a) refused, (b) unsubscribed+acked, (c) closed by server, (d) abandoned
 	residue: [usize; 4],
 	last_requests: usize,
+	/// request ids whose work is certainly over (answered call; subscribe id and unsubscribe id of an ended subscription)
+	finished_ids: Vec<Value>,
 }
 
 impl Oracle {
@@ -145,6 +147,7 @@ impl Oracle {
 				let is_err = o.contains_key("error");
 				if let Some(op) = self.calls.iter().find(|(_, v)| **v == id).map(|(k, _)| *k) {
 					self.calls.remove(&op);
+					self.finished_ids.push(id);
 					return;
 				}
 				for s in self.subs.values_mut() {
@@ -153,6 +156,7 @@ impl Oracle {
 						let sid_ok = res.map(|r| r.is_u64() || r.is_string()).unwrap_or(false);
 						if is_err || !sid_ok {
 							s.state = SubState::Refused;
+							self.finished_ids.push(id.clone());
 							self.residue[0] += 1;
 						} else if s.abandoned {
 							s.sid = res.map(|r| r.to_string());
@@ -166,6 +170,8 @@ impl Oracle {
 					}
 					if s.state == SubState::UnsubSent && s.unsub_req.as_ref() == Some(&id) {
 						s.state = SubState::UnsubAcked;
+						self.finished_ids.push(id.clone());
+						self.finished_ids.push(s.sub_req.clone());
 						self.residue[1] += 1;
 						return;
 					}
@@ -197,6 +203,7 @@ impl Oracle {
 			for s in self.subs.values_mut() {
 				if s.sid.as_deref() == Some(sid.as_str()) && s.state == SubState::Active {
 					s.state = SubState::ClosedByServer;
+					self.finished_ids.push(s.sub_req.clone());
 					self.residue[2] += 1;
 				}
 			}
@@ -329,6 +336,22 @@ fn run_one(out: &mut Out, lines: &[String]) {
 			// what the client received comes before what it wrote as a consequence …
 			if w[1] == "deliver" {
 				let text = String::from_utf8(unhex(w[2])).unwrap_or_default();
+				// a single response bearing the id of finished work matches nothing pending
+				if let Ok(Value::Object(o)) = serde_json::from_str::<Value>(&text) {
+					if let (Some(id), false) = (o.get("id"), o.contains_key("method")) {
+						if orc.finished_ids.contains(id) {
+							nontrivial = true;
+							out.count("stale-response.checked");
+							let rejected = obs.fatal.as_deref().map(|f| f.starts_with("notpending:")).unwrap_or(false);
+							if !rejected {
+								verdict = Err(format!(
+									"a response bearing the id {id} of finished work was accepted (fatal = {:?}): a stale table entry captured it",
+									obs.fatal
+								));
+							}
+						}
+					}
+				}
 				orc.deliver(&text);
 				if obs.fatal.is_some() {
 					dead = true;
@@ -410,7 +433,8 @@ struct G {
 enum Owed {
 	CallAnswer(u64),
 	BatchAnswer(u64, u64),
-	UnsubAck(u64),
+	/// answer to the unsubscribe request with this id; the payload kind is drawn when the cycle is generated
+	UnsubAck(u64, u64),
 }
 
 impl G {
@@ -428,7 +452,22 @@ impl G {
 					(0..*n).rev().map(|i| format!("{{\"jsonrpc\":\"2.0\",\"id\":{},\"result\":{}}}", idj(start + i, self.str_ids), i)).collect();
 				format!("[{}]", es.join(","))
 			}
-			Owed::UnsubAck(id) => format!("{{\"jsonrpc\":\"2.0\",\"id\":{},\"result\":true}}", idj(*id, self.str_ids)),
+			Owed::UnsubAck(id, kind) => {
+				// whatever the server says to an unsubscribe call, the call is over
+				let payload = match kind {
+					0..=3 => "\"result\":true".to_string(),
+					4 | 5 => "\"result\":false".to_string(),
+					6 => "\"error\":{\"code\":-32000,\"message\":\"subscription not found\"}".to_string(),
+					7 => "\"error\":{\"code\":1,\"message\":\"\",\"data\":[1,{\"a\":null}]}".to_string(),
+					8 => "\"error\":{\"code\":-32601,\"message\":\"Method not found\"}".to_string(),
+					9 => "\"error\":{\"code\":-32602,\"message\":\"Invalid params\",\"data\":\"x\"}".to_string(),
+					10 => "\"result\":null".to_string(),
+					11 => "\"result\":\"gone\"".to_string(),
+					12 => "\"result\":{\"ok\":0}".to_string(),
+					_ => "\"result\":0".to_string(),
+				};
+				format!("{{\"jsonrpc\":\"2.0\",\"id\":{},{payload}}}", idj(*id, self.str_ids))
+			}
 		}
 	}
 	/// one cycle of the given kind; returns what the server still owes afterwards
@@ -469,12 +508,12 @@ impl G {
 					2 => {
 						out.count("cycle.sub.unsub");
 						self.lines.push(format!("cl unsub {op}"));
-						vec![Owed::UnsubAck(id + 1)]
+						vec![Owed::UnsubAck(id + 1, rng.below(14))]
 					}
 					3 => {
 						out.count("cycle.sub.drop");
 						self.lines.push(format!("cl drop {op}"));
-						vec![Owed::UnsubAck(id + 1)]
+						vec![Owed::UnsubAck(id + 1, rng.below(14))]
 					}
 					4 => {
 						out.count("cycle.sub.server-close");
@@ -492,7 +531,7 @@ impl G {
 						if rng.chance(1, 2) {
 							self.lines.push(format!("cl drop {op}"));
 						}
-						vec![Owed::UnsubAck(id + 1)]
+						vec![Owed::UnsubAck(id + 1, rng.below(14))]
 					}
 				}
 			}
@@ -647,7 +686,7 @@ impl G {
 				self.sid_counter += 1;
 				let sid = format!("\"A{}\"", self.sid_counter);
 				self.deliver(&format!("{{\"jsonrpc\":\"2.0\",\"id\":{},\"result\":{sid}}}", idj(id, self.str_ids)));
-				vec![Owed::UnsubAck(id + 1)]
+				vec![Owed::UnsubAck(id + 1, rng.below(14))]
 			}
 		}
 	}
@@ -708,6 +747,15 @@ fn gen_case(rng: &mut Rng, caseno: u64, out: &mut Out, long: Option<(u64, u64)>)
 				g.sizes();
 			}
 		}
+	}
+	// everything is finished now: a response bearing any id used so far matches nothing pending and must make the
+	// client give up the connection (last line of the case: the connection is gone afterwards)
+	if g.next_id > 0 && rng.chance(1, 3) {
+		out.count("stale-response");
+		let id = rng.below(g.next_id);
+		let payload = if rng.chance(1, 2) { "\"result\":true" } else { "\"error\":{\"code\":-32000,\"message\":\"late\"}" };
+		let t = format!("{{\"jsonrpc\":\"2.0\",\"id\":{},{payload}}}", idj(id, g.str_ids));
+		g.deliver(&t);
 	}
 	g.lines
 }
